@@ -5,6 +5,7 @@ type and coercion mode (loading of valid+invalid data, dumping of well- and ill-
 from __future__ import annotations
 
 from adaptix import DebugTrail
+from adaptix.load_error import LoadError
 
 from .. import hostile, spec
 from ..adx import DEBUG_MODES, attempt, error_nodes, make_retort, mode_name
@@ -285,6 +286,18 @@ class _Boom(Exception):
     pass
 
 
+@__import__("dataclasses").dataclass(frozen=True)
+class _FrozenBoom(Exception):
+    """An exception that refuses new attributes (the trail cannot be attached to it): defect #60."""
+    value: str = "frozen"
+
+
+class _SlotLoadError(__import__("adaptix").load_error.LoadError):
+    """A LoadError of the user's own that refuses new attributes."""
+    def __setattr__(self, k, v):
+        raise AttributeError("immutable")
+
+
 def _user_programs(rng):
     """(hint, recipe, good datum, poisoned data) where user-supplied code raises a NON-LoadError (or a LoadError of its own) for
     particular values: constructors (__post_init__), loader(...) functions, validators. The poisoned value sits where another union
@@ -295,7 +308,7 @@ def _user_programs(rng):
     from adaptix import P, loader, validator  # noqa: PLC0415
     from adaptix.load_error import ValueLoadError  # noqa: PLC0415
 
-    exc_cls = rng.choice([ValueError, TypeError, KeyError, _Boom, ZeroDivisionError, AttributeError, LookupError])
+    exc_cls = rng.choice([ValueError, TypeError, KeyError, _Boom, ZeroDivisionError, AttributeError, LookupError, _FrozenBoom, _SlotLoadError, StopIteration])
 
     def post_init(self):
         if self.lo > self.hi:
@@ -310,6 +323,8 @@ def _user_programs(rng):
             raise exc_cls("user loader refuses")
         if v == "mild":
             raise ValueLoadError("user load error", v)
+        if type(v) not in (int, str):
+            raise ValueLoadError("user load error: not a number", v)     # a LoadError, not a stray TypeError from int([])
         return int(v)
     how = rng.choice(["constructor", "loader", "validator-raising", "loader-in-list"])
     if how == "constructor":
@@ -353,6 +368,7 @@ def _user_programs(rng):
         # several failing fields of ONE model in both orders: an unexpected error followed by a LoadError and the reverse
         # (seeded change: the 'unexpected' mark was overwritten by the last failing field instead of latched)
         Three = make_dataclass("Three", [("n", int), ("s", t.List[str]), ("m", int, 0)])
+        Three.__module__ = "a_vlib_c06"      # union cases are tried in normal-form order (by text): the model has to come before dict
         hint3 = t.Union[Three, t.Dict[str, t.Any]]
         for label, d in (("unexpected-then-loaderror", {"n": "boom", "s": 5, "m": 1}), ("loaderror-then-unexpected", {"n": 1, "s": 5, "m": "boom"}),
                          ("unexpected-loaderror-unexpected", {"n": "boom", "s": 5, "m": "boom"}), ("mild-then-unexpected", {"n": "mild", "s": [], "m": "boom"})):
@@ -393,7 +409,15 @@ def run_user_code_case(ctx, rng):
             kinds = {dt: o.kind == "ok" for dt, o in outs.items()}
             info = {"program": desc, "datum": repr(d)[:300], "outcomes": {dt.name: repr(o)[:300] for dt, o in outs.items()}}
             if len(set(kinds.values())) > 1:
-                ctx.violation("load:success-disagreement:user-code-error", f"{desc} <- {label} {d!r:.200} [{'strict' if sc else 'lax'}]: "
+                key = "load:success-disagreement:user-code-error"
+                if exc_cls is StopIteration:
+                    key = "load:user-code-StopIteration-meets-iteration-machinery"
+                elif label in ("three:loaderror-then-unexpected", "three:mild-then-unexpected") and kinds[DebugTrail.DISABLE] and kinds[DebugTrail.FIRST] and not kinds[DebugTrail.ALL] \
+                        and not issubclass(exc_cls, LoadError):
+                    # known finding: DISABLE / FIRST stop at the LoadError of an earlier field (the union goes on to its next case), ALL also
+                    # reaches the later field whose loader crashes, and refuses
+                    key = "load:success-disagreement:loaderror-before-unexpected-error-in-one-model"
+                ctx.violation(key, f"{desc} <- {label} {d!r:.200} [{'strict' if sc else 'lax'}]: "
                               + "; ".join(f"{dt.name}={o!r:.120}" for dt, o in outs.items()), info)
                 continue
             if all(kinds.values()):
@@ -407,10 +431,10 @@ def run_user_code_case(ctx, rng):
                 single = outs[dt].exc
                 leaves = [n for n in _all_nodes(single) if not getattr(n, "exceptions", None)]
                 if not any(type(n) in all_classes or (type(n).__name__ == "LoadError" and any(c.__name__ == "UnionLoadError" for c in all_classes)) for n in leaves):
-                    ctx.violation(f"load:error-without-counterpart-{dt.name}:user-code", f"{desc} <- {label}: {dt.name} raised {single!r:.150}, ALL raised {outs[DebugTrail.ALL].exc!r:.200}", info)
+                    ctx.violation("load:user-code-StopIteration-meets-iteration-machinery" if exc_cls is StopIteration else f"load:error-without-counterpart-{dt.name}:user-code", f"{desc} <- {label}: {dt.name} raised {single!r:.150}, ALL raised {outs[DebugTrail.ALL].exc!r:.200}", info)
             # whether user code crashed (a non-LoadError is involved) is the same in every mode
             crashed = {dt: outs[dt].kind in ("exc", "impure") for dt in DEBUG_MODES}
-            if len(set(crashed.values())) > 1:
+            if len(set(crashed.values())) > 1 and exc_cls is not StopIteration and not issubclass(exc_cls, LoadError):
                 ctx.violation("load:unexpected-error-reported-as-load-error", f"{desc} <- {label}: " + "; ".join(f"{dt.name}={o!r:.120}" for dt, o in outs.items()), info)
 
 
